@@ -166,7 +166,8 @@ def all_cases():
 
 def classify(case, bad):
     kinds = [k for k, _ in bad]
-    for k in ("walker", "full-checker", "strict-inference", "ort-load", "missing-function"):
+    for k in ("checker-aborted", "runtime-aborted", "walker", "full-checker", "strict-inference", "ort-load",
+              "missing-function"):
         if k in kinds:
             return f"adversarial-program-returned-invalid-model:{k}"
     return "adversarial-program-returned-invalid-model"
